@@ -45,6 +45,7 @@ func c17Ops(k Kind) []c17Op {
 		c17Op{"one", func() any { return "x" }, `"x"`},
 		c17Op{"one", func() any { return "" }, `""`},
 		c17Op{"many", func() any { return []string{"b", "a"} }, "[b a]"},
+		c17Op{"many", func() any { return []string{"b", "a", "b"} }, "[b a b]"},
 		c17Op{"many", func() any { return []string{} }, "[]"},
 		c17Op{"id", func() any { return "i1" }, `"i1"`},
 		c17Op{"id", func() any { return "" }, `""`},
@@ -161,7 +162,7 @@ func (y *c17Sys) Apply(opi int) (fails []mc.Violation, fatal bool) {
 func c17BFS(c *Ctx, k Kind) *mc.BFS {
 	depth := 4
 	if Thorough() {
-		depth = 6
+		depth = 8
 	}
 	ops := c17Ops(k)
 	return &mc.BFS{
@@ -228,8 +229,9 @@ type c17Variant struct {
 
 func c17Pool() []c17Variant {
 	str, pstr, pint := Kind{j.AttrTypeString, false}, Kind{j.AttrTypeString, true}, Kind{j.AttrTypeInt, true}
+	pbytes := Kind{j.AttrTypeBytes, true}
 	base := func() TypeD {
-		return TypeD{Name: "t", Attrs: []AttrD{{"k", str}, {"n", pint}}, Rels: []RelD{{"one", true, "u", ""}, {"many", false, "u", ""}}}
+		return TypeD{Name: "t", Attrs: []AttrD{{"k", str}, {"n", pint}, {"pb", pbytes}}, Rels: []RelD{{"one", true, "u", ""}, {"many", false, "u", ""}}}
 	}
 	fill := func(r j.Resource, kname string) j.Resource {
 		r.Set("id", "i1")
@@ -268,6 +270,8 @@ func c17Pool() []c17Variant {
 		v("attr-value", base, func(r j.Resource) { r.Set("k", "w") }),
 		v("nullable-set", base, func(r j.Resource) { r.Set("n", Ptr(int(0))) }),
 		v("nullable-other", base, func(r j.Resource) { r.Set("n", Ptr(int(1))) }),
+		v("pointer-to-nil-bytes", base, func(r j.Resource) { var b []byte; r.Set("pb", &b) }),
+		v("pointer-to-empty-bytes", base, func(r j.Resource) { b := []byte{}; r.Set("pb", &b) }),
 		v("attr-kind", func() TypeD { d := base(); d.Attrs[0].K = pstr; return d }, func(r j.Resource) { r.Set("k", Ptr("v")) }),
 		v("rel-renamed", func() TypeD { d := base(); d.Rels[0].Name = "one2"; return d }, nil),
 		v("to-one-value", base, func(r j.Resource) { r.Set("one", "y") }),
@@ -280,7 +284,7 @@ func c17Pool() []c17Variant {
 		v("to-many-empty", base, func(r j.Resource) { r.Set("many", []string{}) }),
 		v("id", base, func(r j.Resource) { r.Set("id", "i2") }),
 		v("extra-attr", func() TypeD { d := base(); d.Attrs = append(d.Attrs, AttrD{"e", str}); return d }, nil),
-		v("missing-attr", func() TypeD { d := base(); d.Attrs = d.Attrs[:1]; return d }, nil),
+		v("missing-attr", func() TypeD { d := base(); d.Attrs = d.Attrs[:2]; return d }, nil),
 		v("missing-rel", func() TypeD { d := base(); d.Rels = d.Rels[:1]; return d }, nil),
 		v("rel-cardinality", func() TypeD { d := base(); d.Rels[1].ToOne = true; return d }, nil),
 	}
@@ -385,7 +389,7 @@ func c17Equal(x *mc.Exec) {
 func init() {
 	Register(&Prop{
 		ID: "C17",
-		Rule: "Engine B: for each of the 28 kinds, breadth-first search over ALL Set histories (depth <= 4 quick / 6 thorough) on a soft resource and a struct-wrapped resource of the same type driven side by side (3 values of the kind + typed nil + untyped nil for nullable kinds, 2 values each for a string attribute, to-one, to-many and id), de-duplicated by deep snapshot; after every step every observable (GetType().Name, Attrs, Rels, attribute definition, Get of every field and id) of both implementations is compared with a map model. Engine A: 28 kinds x 5 constructors of fresh resources (Type.New soft/struct, SoftResource.New, Wrapper.New, Wrapper.New after Set); all ordered pairs of a pool of 18 resource variants x {soft,wrapped} that differ from a base in exactly one aspect, for reflexivity, symmetry and 'never equal when different'",
+		Rule: "Engine B: for each of the 28 kinds, breadth-first search over ALL Set histories (depth <= 4 quick / 8 thorough) on a soft resource and a struct-wrapped resource of the same type driven side by side (3 values of the kind + typed nil + untyped nil for nullable kinds, 2 values each for a string attribute, to-one, to-many and id), de-duplicated by deep snapshot; after every step every observable (GetType().Name, Attrs, Rels, attribute definition, Get of every field and id) of both implementations is compared with a map model. Engine A: 28 kinds x 5 constructors of fresh resources (Type.New soft/struct, SoftResource.New, Wrapper.New, Wrapper.New after Set); all ordered pairs of a pool of 18 resource variants x {soft,wrapped} that differ from a base in exactly one aspect, for reflexivity, symmetry and 'never equal when different'",
 		Assumptions: []string{"an unset byte string reads as empty or nil, a nil nullable as typed or untyped nil (as stated)"},
 		Harnesses: []Harness{
 			{Name: "C17/set-histories",
